@@ -29,6 +29,9 @@ def shapes():
     S["tau_1_3"] = ([2, 4, 4], [(-1, -1), (-1, -1), (0, 1)], [(1, 1), (2, 2), (1, 3)], [(0, 0)] * 3, 2)
     S["clonal_2_0"] = ([2, 2, 2], [(-1, -1), (-1, -1), (0, 1)], [(1, 1), (1, 1), (2, 0)], [(0, 0)] * 3, 3)
     S["clonal_0_2"] = ([2, 2, 2], [(-1, -1), (-1, -1), (0, 1)], [(1, 1), (1, 1), (0, 2)], [(0, 0)] * 3, 3)
+    S["duo_q4_lambda"] = ([4, 4], [(-1, -1), (-1, 0)], [(2, 2), (2, 2)], [(0, 0), (0, 0.25)], 3)
+    S["backcross"] = ([2, 2, 2, 2], [(-1, -1), (-1, -1), (1, 0), (2, 0)], [(1, 1)] * 4, [(0, 0)] * 4, 2)
+    S["trio_rev_4_lambda"] = ([4, 4, 4], [(-1, -1), (-1, -1), (1, 0)], [(2, 2)] * 3, [(0, 0), (0, 0), (0.15, 0.3)], 2)
     S["duo_unbalanced"] = ([4, 3], [(-1, -1), (0, -1)], [(2, 2), (2, 1)], [(0, 0), (0, 0)], 3)
     return S
 
